@@ -160,7 +160,11 @@ class _Exec(Flow):
         return sym in ('dawgie.context.fsm', FSM)
 
     def _site(self, node):
-        return f'{self.f.qname}:{norm(node)}'
+        q = self.f.qname
+        if self.f.parent is not None:
+            # the name of a local closure is not part of the construct's identity (renaming it must not change the key)
+            q = self.f.parent.qname + '.<locals>.<callback>'
+        return f'{q}:{norm(node)}'
 
     def on_test(self, e, st):
         state, trans, prior, pend, dt = st
